@@ -27,7 +27,7 @@ func init() {
 			"LIKE-hostile strings included; a third of the numeric columns are handed to the engine as native Go values of another numeric type: int*, uint*, float32), a second table t2 for IN-subqueries and a predicate tree (depth<=5) over = != <> < <= > >= / [NOT] IN / " +
 			"IN (SELECT..) / [NOT] BETWEEN / [NOT] LIKE / IS [NOT] NULL|TRUE|FALSE / AND OR NOT; oracle = independent reference filter " +
 			"(sequence equality) for p and NOT(p), plus engine-vs-engine rewrites (BETWEEN -> >= AND <=, NOT IN -> NOT(IN), NOT LIKE -> NOT(LIKE)). " +
-			"Non-trivial: >=2 rows and 0 < kept < n. Distinct = distinct JSON encodings of (doc, predicate).",
+			"The predicate, its negation and the rewrites run one after the other on the same input object; a quarter of the IN-subqueries read the filtered table itself. Non-trivial: >=2 rows and 0 < kept < n. Distinct = distinct JSON encodings of (doc, predicate).",
 		Assumptions: []string{
 			"columns hold non-NULL values of one scalar kind; NULL only under IS [NOT] NULL (as the statement says)",
 			"no backslash in LIKE patterns (escape semantics unspecified)",
@@ -78,6 +78,10 @@ func genC01(t *rapid.T) any {
 		t2.Rows = append(t2.Rows, row)
 	}
 	ps := &PredSpec{SubTable: "t2", SubCols: t2.Cols}
+	if rapid.IntRange(0, 3).Draw(t, "selfsub") == 0 {
+		// IN-subqueries read the filtered table itself
+		ps = &PredSpec{SubTable: "t", SubCols: tb.Cols}
+	}
 	pred := genPred(t, tb, ps, rapid.IntRange(0, 5).Draw(t, "depth"), "p")
 	c := &C01Case{Doc: map[string]any{"t": tb.Rows, "t2": t2.Rows}, Pred: pred}
 	c.GoTypes = genGoTypes(t, tb.Cols, "gotypes")
@@ -194,11 +198,12 @@ func checkC01(c *C01Case) Result {
 	}
 	res.NonTrivial = len(rows) >= 2 && len(keep) > 0 && len(keep) < len(rows)
 
+	live := c.engineDoc()
 	sql := c.SQL
 	if sql == "" {
 		sql = "SELECT * FROM t WHERE " + sq.Render(c.Pred, nil)
 	}
-	out := Run(c.engineDoc(), sql, Opts{})
+	out := Run(live, sql, Opts{})
 	res.Execs++
 	if !out.OK() {
 		res.Violation = fmt.Sprintf("%s\n  expected rows %s\n  got %s", sql, val.JSON(keep), out.Describe())
@@ -210,7 +215,7 @@ func checkC01(c *C01Case) Result {
 	}
 	// negation: complement, in source order
 	nsql := "SELECT * FROM t WHERE NOT (" + sq.Render(c.Pred, nil) + ")"
-	nout := Run(c.engineDoc(), nsql, Opts{})
+	nout := Run(live, nsql, Opts{})
 	res.Execs++
 	if !nout.OK() || !seqEqual(nout.Rows, drop) {
 		res.Violation = fmt.Sprintf("negation does not select the complement: %s\n  expected rows %s\n  got %s", nsql, val.JSON(drop), nout.Describe())
@@ -223,7 +228,7 @@ func checkC01(c *C01Case) Result {
 	// defining expansions, engine vs engine
 	if rw, changed := rewriteSugar(c.Pred); changed {
 		rsql := "SELECT * FROM t WHERE " + sq.Render(rw, nil)
-		rout := Run(c.engineDoc(), rsql, Opts{})
+		rout := Run(live, rsql, Opts{})
 		res.Execs++
 		if !rout.OK() || !seqEqual(rout.Rows, out.Rows) {
 			res.Violation = fmt.Sprintf("sugar and its expansion disagree:\n  %s -> %s\n  %s -> %s", sql, val.JSON(out.Rows), rsql, rout.Describe())
